@@ -359,7 +359,7 @@ fn run(ctx: &mut Ctx) {
     let t = ctx.tier;
     let shapes = ovl_family();
     let mut r = ctx.rng(16);
-    let n = ctx.scaled(t.pick(160, 3_000)) / ctx.nshards as u64 + 1;
+    let n = ctx.scaled(t.pick(800, 8_000)) / ctx.nshards as u64 + 1;
     'outer: for _ in 0..n {
         for (ops, gen) in &shapes {
             let vseed = r.next();
@@ -369,7 +369,7 @@ fn run(ctx: &mut Ctx) {
         }
     }
     ctx.exhaustive("for every generated value with at most 3 items per list: all order-preserving interleavings of its child elements (when at most 2000) x every event-buffer limit 1..=child events+2");
-    let n = ctx.scaled(t.pick(400, 8_000)) / ctx.nshards as u64 + 1;
+    let n = ctx.scaled(t.pick(3_000, 30_000)) / ctx.nshards as u64 + 1;
     'outer2: for _ in 0..n {
         for (ops, gen) in &shapes {
             let vseed = r.next();
